@@ -33,7 +33,7 @@ RULE = (
 ASSUMPTIONS = ["enumeration bound N=9 (10 thorough); lengths above the C02 oracle bound are enumerated by the library and checked for downward closure only",
                "compression property of the three families (x embeds in a member iff in the member of length 2|x|+4), validated against the shipped tables at design time"]
 REQUIRED = ["env.shards_with_other_hashseed", "calls.PinWords.has_finite_simples", "calls.PinWords.has_finite_alternations", "calls.PinWords.has_finite_wedges_type_1",
-            "calls.PinWords.has_finite_wedges_type_2", "calls.Av.has_finitely_many_simples", "calls.FinitelyManySimplesStrategy.applies", "verdict.whole_checked", "verdict.all_nonpin_bases", "nonpin.bases",
+            "calls.PinWords.has_finite_wedges_type_2", "calls.Av.has_finitely_many_simples", "calls.FinitelyManySimplesStrategy.applies", "verdict.whole_checked", "verdict.all_nonpin_bases", "nonpin.bases", "history.elementwise_images",
             "verdict.finite", "verdict.infinite", "oracleA.infinite_checked", "oracleA.finite_confirmed", "oracleB.tables_checked",
             "oracleB.finite_families_checked", "symmetry.checked", "cli.checked", "oracleB.table_probes", "separating_bases", "history.enumeration_depths"]
 MIN_NONTRIVIAL = 20
@@ -263,6 +263,16 @@ def chk_basis(ctx, basis, enumerate_simples=True):
         ctx.count("symmetry.checked")
         if PinWords.has_finite_simples(img) is not util or Av(img).has_finitely_many_simples() is not meth:
             report("basis", [basis], f"verdict changes under the symmetry {sname}")
+    # history: bases that are images of this one ELEMENT BY ELEMENT (each element under its own symmetry) are different classes
+    # in general; they are asked right after it in the same process (each verdict judged by the monitor on its own)
+    if len(ts) >= 2:
+        mats = list(G.SYMS.values())
+        for _ in range(2):
+            mixed = [Perm(ts[0])] + [Perm(G.act_perm(ctx.rng.choice(mats), t)) for t in ts[1:]]
+            PinWords.has_finite_simples(mixed)
+            Av(mixed).has_finitely_many_simples()
+            ctx.count("history.elementwise_images")
+        PinWords.has_finite_simples(B)
     # Oracle B (ii): 'finitely many' requires every family, in every orientation, to meet the basis
     if meth:
         ctx.count("oracleB.finite_families_checked")
